@@ -104,7 +104,7 @@ def lineStr (l : Line) : String :=
   | none => "0///"
 
 def errStr : Err → String
-  | .indexError => "err:IndexError" | .zeroDivisionError => "err:ZeroDivisionError" | .attributeError => "err:AttributeError"
+  | .indexError => "err:IndexError" | .zeroDivisionError => "err:ZeroDivisionError" | .attributeError => "err:AttributeError" | .keyError => "err:KeyError"
 
 def idxOf (x : Line × Nat) (l : List (Line × Nat)) : Nat := l.findIdx (fun y => y.1 = x.1)
 
@@ -133,6 +133,34 @@ def runIdx (asIs : Bool) (ws : List String) : String :=
     | _, _ => "bad-op"
   | _ => "bad-op"
 
+/-- rendered key text of a line as the harness reads it back from the HTML: the text content, or `*` when the
+    key contains markup or mathematics (source has `{` or `$`) -/
+def hLineStr (l : Line) : String :=
+  match l.path.getLast? with
+  | some lv =>
+    let t := if lv.src.any (fun c => c == 123 || c == 36) then "*" else dots lv.txt
+    s!"{l.path.length}/{t}/{l.pages.length}"
+  | none => "0//0"
+
+def htmlStr (env : Env) (lines : List Line) (cols : Nat) : String :=
+  match renderIndex env lines cols with
+  | .error e => errStr e
+  | .ok r =>
+    let gs := joinSp (r.map fun g => s!"{dots g.1}/" ++ "|".intercalate (g.2.map fun col => toString col.length))
+    s!"H: {joinSp ((htmlLines r).map hLineStr)} G {gs}"
+
+def runHtml (ws : List String) : String :=
+  match ws with
+  | cols :: r =>
+    match cols.toNat?, entries? (r.length + 1) r {} 0 with
+    | some cols, some (es, t) =>
+      if es.any (fun e => e.path.isEmpty) then "err:AttributeError\t-" else
+      let env := mkEnv t
+      let lines := buildIndex env es
+      s!"L: {joinSp (lines.map lineStr)} G {groupsStr env lines cols} ## {htmlStr env lines cols}\t{specStr es}"
+    | _, _ => "bad-op"
+  | _ => "bad-op"
+
 def colsStr (cs : List (List Nat)) : String := "|".intercalate (cs.map fun c => ",".intercalate (c.map toString))
 
 def handle : List String → String
@@ -149,6 +177,7 @@ def handle : List String → String
     | none => "bad-op"
   | "idx" :: ws => runIdx false ws
   | "doc18" :: ws => runIdx false ws
+  | "html18" :: ws => runHtml ws
   | "idx-asis" :: ws => runIdx true ws
   | "idxcols" :: cols :: ws =>
     match cols.toNat?, natList? ws with
